@@ -34,11 +34,11 @@
    (harness/src/c02.rs, gcprobe.rs) exercise exactly these points on the implementation.
 
    Covered: StringLiteral, InitTable, SetProperty, FunctionPointer, Closure, NativeFunctionPointer, NthRow,
-   AppendTable, RegisterUpvalue, and through CallNative the entry allocation (init_table of the result / of the
+   AppendTable, RegisterUpvalue, and through CallNative / CallFunction on a native function value the entry allocation (init_table of the result / of the
    snapshot) of __to_array, __min, __max, __sort.
    NOT covered (no apoint is generated, see the header of Properties/C02.v): allocation points of a native after its
    first init_table (per-entry growth of the copy, make_row, the nested runs of the key function under the guards of
-   min/max/sorted), natives reached through CallFunction on a native function value, Vm::insert_value (host API),
+   min/max/sorted), Vm::insert_value (host API),
    and all other opcodes do not allocate.  The two inserts into the fresh row table of NthRow / make_row never grow
    (capacity 8, load 0.7: first growth at the 6th entry) and are not allocation points. *)
 From Coq Require Import NArith ZArith List Lia Bool.
@@ -200,12 +200,25 @@ Definition ap_4 (ip : N) (s : state) : list apoint :=   (* CallNative *)
   | None => []
   end.
 
+(* CallFunction on a native function value: the function value is popped, then call_native as above *)
+Definition ap_11 (s : state) : list apoint :=
+  let '(s1, fv) := spop s in
+  match fv with
+  | VObj a =>
+      match hget (st_heap s1) a with
+      | Some (ONative h) => match find_native h all_natives with Some n => ap_native n s1 | None => [] end
+      | _ => []
+      end
+  | _ => []
+  end.
+
 (* the allocation points of the instruction at [ip0], in program order *)
 Definition alloc_points (ip0 : N) (s : state) : list apoint :=
   let ip := (ip0 + 1)%N in
   match nth (N.to_nat ip0) (p_code P) 255%N with
   | 4%N => ap_4 ip s
   | 8%N => ap_8 ip s
+  | 11%N => ap_11 s
   | 31%N => ap_31 s
   | 33%N => ap_33 s
   | 37%N | 42%N => ap_37_42 ip s
